@@ -416,8 +416,8 @@ class Oracle:
             return {"t": "vals", "vals": out}
         if q in ("vir", "min", "max") or (q == "agg" and s["name"] in ("min", "max")):
             lo, hi = s.get("lo"), s.get("hi")
-            if lo is not None and hi is not None and lo > hi:
-                return None
+            if lo is not None and hi is not None and lo >= hi:
+                return None      # not a window (the code requires lower < upper)
             cl = s.get("closed") or f.closed
             vals = values_in_range(f, lo, hi, cl)
             if q == "vir":
@@ -469,7 +469,7 @@ def obs_equal(exp, got, tol=False):
     """does the implementation's observation `got` meet the oracle's `exp` (None: no opinion)"""
     if exp is None:
         return True
-    if got is None:
+    if got is None or got.get("t") == "skip":
         return True
     if exp["t"] == "oneof":
         return got["t"] == "val" and any(_close(got["val"], v, tol) for v in exp["vals"])
